@@ -68,6 +68,24 @@ func (e *nilEngine) nonNil(v ssa.Value, at ssa.Instruction, depth int) (bool, st
 		return e.nonNil(x.X, at, depth+1)
 	case *ssa.FieldAddr, *ssa.IndexAddr:
 		return true, "address"
+	case *ssa.Field:
+		// a field of a struct value of a package type: whatever is ever stored in
+		// that field of any value of the type (struct values are copied whole)
+		if n, ok := x.X.Type().(*types.Named); ok && n.Obj().Pkg() == w.Types {
+			vals, zero := w.structFieldOrigins(n, x.Field)
+			if zero {
+				return false, "some value of " + n.Obj().Name() + " is built without this field"
+			}
+			if len(vals) == 0 {
+				return false, "no assignment to the field found"
+			}
+			for _, ov := range vals {
+				if ok, why := e.nonNil(ov, nil, depth+1); !ok {
+					return false, "field of " + n.Obj().Name() + " receives a possibly nil value: " + why
+				}
+			}
+			return true, "every value of " + n.Obj().Name() + " is built with a non-nil value in this field"
+		}
 	case *ssa.TypeAssert:
 		if !x.CommaOk {
 			return true, "result of a successful type assertion"
@@ -78,6 +96,16 @@ func (e *nilEngine) nonNil(v ssa.Value, at ssa.Instruction, depth int) (bool, st
 				return true, "bound by a successful comma-ok assertion"
 			}
 			return false, "comma-ok assertion result used outside its ok branch"
+		}
+		if lk, ok := x.Tuple.(*ssa.Lookup); ok && lk.CommaOk && x.Index == 0 {
+			// an entry of a package-level table nothing writes after initialisation,
+			// used on the found edge: non-nil when every entry of the table is
+			if at != nil && w.lookupFoundEdge(lk, at.Block()) {
+				if ok, why := w.roTableValuesNonNil(lk.X); ok {
+					return true, why
+				}
+			}
+			return false, "map entry of unknown nil-ness (or used outside the found branch)"
 		}
 		if c, ok := x.Tuple.(*ssa.Call); ok {
 			// (value, error) results: non-nil value when the error was tested nil and the callee pairs them
@@ -990,6 +1018,12 @@ func (e *nilEngine) elemsNonNil(v ssa.Value, at ssa.Instruction, depth int) (boo
 		return true, "all incoming slices have non-nil elements"
 	case *ssa.Slice:
 		return e.elemsNonNil(x.X, at, depth+1)
+	case *ssa.MakeSlice:
+		// make(T, 0, n): no element is accessible until it has been appended
+		if k, ok := constInt(x.Len); ok && k == 0 {
+			return true, "make with length 0: every element is one that was appended"
+		}
+		return false, "make with a non-zero length leaves zero-valued (nil) elements"
 	case *ssa.Alloc:
 		// array literal: every store into an element
 		for _, u := range uses(x) {
@@ -1121,4 +1155,125 @@ func (e *nilEngine) cellFlowNonNil(c *ssa.Alloc, ld *ssa.UnOp, depth int) bool {
 	}
 	_, at := transfer(ld.Block(), in[ld.Block().Index], ld)
 	return at
+}
+
+// lookupFoundEdge: blk is dominated by the edge on which the comma-ok lookup found its key.
+func (w *World) lookupFoundEdge(lk *ssa.Lookup, blk *ssa.BasicBlock) bool {
+	for _, u := range uses(lk) {
+		ex, ok := u.(*ssa.Extract)
+		if !ok || ex.Index != 1 {
+			continue
+		}
+		for _, uu := range uses(ex) {
+			neg := false
+			var cur ssa.Value = ex
+			for {
+				if un, ok := uu.(*ssa.UnOp); ok && un.Op == token.NOT {
+					neg = !neg
+					cur = un
+					us := uses(un)
+					if len(us) != 1 {
+						break
+					}
+					uu = us[0]
+					continue
+				}
+				break
+			}
+			ifi, ok := uu.(*ssa.If)
+			if !ok || ifi.Cond != cur {
+				continue
+			}
+			t := ifi.Block().Succs[0]
+			if neg {
+				t = ifi.Block().Succs[1]
+			}
+			if len(t.Preds) == 1 && (t == blk || t.Dominates(blk)) {
+				return true
+			}
+		}
+	}
+	return false
+}
+
+// roTableValuesNonNil: m is a load of a package-level map that nothing writes
+// after initialisation and whose initial entries are all function values (or
+// other non-nil values).
+func (w *World) roTableValuesNonNil(m ssa.Value) (bool, string) {
+	ld, ok := m.(*ssa.UnOp)
+	if !ok || ld.Op != token.MUL {
+		return false, ""
+	}
+	g, ok := ld.X.(*ssa.Global)
+	if !ok || !w.readOnlyGlobal(g) {
+		return false, ""
+	}
+	st := w.initState()
+	gobj, ok := st.globals[g]
+	if !ok {
+		return false, ""
+	}
+	mv := st.obj(gobj).Fields[0]
+	if mv.Kind != avPtr {
+		return false, ""
+	}
+	mo := st.obj(mv.Obj)
+	if !mo.IsMap || mo.Opaque || len(mo.Map) == 0 {
+		return false, ""
+	}
+	for _, v := range mo.Map {
+		if v.Kind != avFunc && v.Kind != avPtr {
+			return false, ""
+		}
+	}
+	return true, fmt.Sprintf("entry of the package-level table %s (never written after initialisation; all %d entries non-nil), used on the found edge", g.Name(), len(mo.Map))
+}
+
+// structFieldOrigins: everything the package ever stores into field idx of a
+// value of the (package-level, struct) type T, and whether some value of T can
+// have the field at its zero value (an allocation of T that never sets it).
+func (w *World) structFieldOrigins(T *types.Named, idx int) (vals []ssa.Value, zeroPossible bool) {
+	if _, ok := T.Underlying().(*types.Struct); !ok {
+		return nil, true
+	}
+	for _, fn := range w.AllFuncs {
+		for _, b := range fn.Blocks {
+			for _, in := range b.Instrs {
+				switch x := in.(type) {
+				case *ssa.Store:
+					if fa, ok := x.Addr.(*ssa.FieldAddr); ok && fa.Field == idx && structOfAddr(fa) == T {
+						vals = append(vals, x.Val)
+					}
+				case *ssa.Alloc:
+					pt, ok := x.Type().(*types.Pointer)
+					if !ok || pt.Elem() != types.Type(T) {
+						continue
+					}
+					// a struct variable: either it receives a whole value (copied from
+					// elsewhere) or each field it sets; if neither for this field, zero
+					set := false
+					for _, u := range uses(x) {
+						switch y := u.(type) {
+						case *ssa.FieldAddr:
+							if y.Field == idx {
+								for _, uu := range uses(y) {
+									if st, ok := uu.(*ssa.Store); ok && st.Addr == ssa.Value(y) {
+										set = true
+									}
+								}
+							}
+						case *ssa.Store:
+							if y.Addr == ssa.Value(x) {
+								set = true // a whole value assigned
+							}
+						}
+					}
+					if !set {
+						zeroPossible = true
+					}
+				}
+			}
+		}
+	}
+	return vals, zeroPossible
 }
